@@ -161,6 +161,18 @@ Theorem C07_text_canonical_no_receipts :
                    Forall MultiWord.advisory5 warns /\ filter MultiWord.is_mw warns = []).
 Proof. exact LexSpell.text_canonical_no_receipts. Qed.
 
+(* NUMBER operand of an operator expression (Rt/FlowNumEx.v): the reader model, validated against the implementation on every token sequence of
+   length <= 3, reads  K::speed(+)2  as the string  speed(+)  and reports NOTHING about the lost operand, while the mirror text  K::2+speed
+   leaves a lenient_parse receipt.  Not one of the four receipt classes C07 enumerates (alias, triple quote, multi-word, brace repair), hence an
+   observation and not a finding of C07; pinned here so that a change of this behaviour is seen by the kernel. *)
+From OV Require Rt.FlowNumEx Rt.TokRoundTEx.
+Require Coq.Strings.String.
+Import Coq.Strings.String.StringSyntax.
+Theorem C07_observation_number_operand_lost_without_receipt :
+  TokRoundTEx.rdt [lit "K::speed" ++ FlowNumEx.OPLUS ++ lit "2"] = Some ([FlowNumEx.kv (VStr (lit "speed" ++ FlowNumEx.OPLUS))], []) /\
+  TokRoundTEx.rdt [lit "K::2+speed"] = Some ([FlowNumEx.kv (VNum false (lit "2"))], [4%N]).
+Proof. exact (conj FlowNumEx.number_operand_dropped_silently FlowNumEx.number_first_operand_reported). Qed.
+
 (* ---- source-text pins (generated by harness/pinsets.py) ---- *)
 (* every function of these modules is, text for text (comments and docstrings excluded), the one the models of this
    property were written against and validated against: harness/translate/srcdigest_t.py, Src/Pin_*.v *)
